@@ -71,8 +71,8 @@ class Walker:
         # a coordinate is fine if ANY token at that position satisfies the rules
         for i, p in enumerate(laid.pos):
             self.pos2tok.setdefault(p, []).append(i)
-        for p, i in getattr(laid, "extra", {}).items():
-            self.pos2tok.setdefault(p, []).append(i)
+        for p, owners in getattr(laid, "extra", {}).items():
+            self.pos2tok.setdefault(p, []).extend(owners)
         self.marker_toks = set(laid.inside_markers)
         self.nontrivial = False
         self.nchecked = 0
